@@ -2,5 +2,4 @@ package cacheprop
 
 import "verif/harness/internal/vstat"
 
-func replayLatency(rf *vstat.ReplayFile) string { return "latency replay not built" }
 func replayRace(rf *vstat.ReplayFile) string    { return "race replay not built" }
